@@ -9,7 +9,6 @@ import (
 	"bufio"
 	"bytes"
 	"fmt"
-
 )
 
 // VerifGroup is the exported form of one entry of the map returned by parseSlots / parseShards.
